@@ -104,10 +104,20 @@ def scenario(rng, workdir, n):
     if "pt_file" in feats:
         files["pt.json"] = json.dumps({"x": 4, "y": 2.5})
         main["pt"] = os.path.join(sub, "pt.json")
-    if "m_file" in feats:
+    same_name = "m_file" in feats and "inner_file" in feats and rng.random() < 0.3
+    if same_name:
+        # two sub-configs loaded from files of the same name in different directories
+        feats.add("same_name_subfiles")
+        for d in ("da", "db"):
+            os.makedirs(os.path.join(src, sub, d), exist_ok=True)
+        files[os.path.join("da", "part.yaml")] = "class_path: vf.fixtures.zoo.SubA\ninit_args:\n  a: 6\n  b: fromfile\n"
+        main["m"] = os.path.join(sub, "da", "part.yaml")
+        files[os.path.join("db", "part.yaml")] = "i1: 9\n"
+        main["inner"] = os.path.join(sub, "db", "part.yaml")
+    if "m_file" in feats and not same_name:
         files["model.yaml"] = "class_path: vf.fixtures.zoo.SubA\ninit_args:\n  a: 6\n  b: fromfile\n"
         main["m"] = os.path.join(sub, "model.yaml")
-    if "inner_file" in feats:
+    if "inner_file" in feats and not same_name:
         files["inner.yaml"] = "i1: 9\n"
         main["inner"] = os.path.join(sub, "inner.yaml")
     for fn, text in files.items():
@@ -117,7 +127,7 @@ def scenario(rng, workdir, n):
         import yaml
 
         yaml.safe_dump(main, f)
-    return src, out, feats, list(files)
+    return src, out, feats, sorted({os.path.basename(f) for f in files})
 
 
 def pre_existing(rng, out, subfiles, target):
@@ -177,6 +187,8 @@ def case(ctx, i, rng):
     existing = pre_existing(rng, out, subfiles, target)
     base_w = dict(features=sorted(feats), multifile=multifile, overwrite=overwrite, target=target, pre_existing=sorted(existing))
     ctx.count(f"st.mode.{'multifile' if multifile else 'single'}.{'overwrite' if overwrite else 'no-overwrite'}")
+    if "same_name_subfiles" in feats and multifile:
+        ctx.count("st.multifile_with_subfiles_of_the_same_name")
     # ---- fault list ----
     faults = [("none", None)]
     for key, bad in (("a", "not-an-int"), ("s", [1]), ("dc.count", "x"), ("pt.x", "x"), ("inner.i1", "x"), ("m.init_args.a", "x"), ("dc.inner.color", "nope")):
